@@ -96,6 +96,8 @@ def tok_num(t: str):
     if t[0] == "f":
         a, b = t[1:].split("/")
         return Fraction(int(a), 2 ** int(b))
+    if t in ("b0", "b1"):
+        return Fraction(int(t[1]))          # Python: True == 1, False == 0
     return None
 
 
@@ -839,6 +841,8 @@ def run_under_seeds(case, seeds) -> dict:
     others = []
     for s in seeds:
         o = WORKERS.call(s, case)
+        if o.get("__timeout__"):
+            return {"__timeout__": True}        # the worker used up its CPU-time budget: the implementation hangs
         if "__crash__" in o:
             raise RuntimeError(f"worker crashed (PYTHONHASHSEED={s}): {o['__crash__']}\n{o.get('__trace__', '')}")
         if obs is None:
